@@ -43,6 +43,22 @@ func main() {
 		dumpMemWrites(p)
 		return
 	}
+	if *dump == "converted" {
+		dumpConverted(p)
+		return
+	}
+	if *dump == "boundary" {
+		dumpBoundary(p)
+		return
+	}
+	if *dump == "errsources" {
+		dumpErrSources(p)
+		return
+	}
+	if *dump == "externals" {
+		dumpExternals(p)
+		return
+	}
 	if *dump == "panics" {
 		dumpPanicSites(p)
 		return
